@@ -209,6 +209,14 @@ func (m *Mem) Read(keys []*Term) *Term {
 			return v
 		}
 	}
+	// a region that is a choice between regions (merged control flow): read each alternative,
+	// so that every branch is resolved against the chain syntactically
+	if len(keys) == 2 && keys[0].op == "ite" && iteDepth(keys[0]) <= 3 {
+		k := keys[0]
+		a := m.Read([]*Term{k.args[1], keys[1]})
+		b := m.Read([]*Term{k.args[2], keys[1]})
+		return Ite(k.args[0], a, b)
+	}
 	// iterative descent over the prev chain to avoid deep recursion
 	ks := keyStr(keys)
 	type pend struct {
@@ -325,6 +333,13 @@ func EqOff(a, b *Term) *Term {
 		return True
 	}
 	if a.sort == RegionSort {
+		// a choice between regions equals x only if one of the alternatives can
+		if a.op == "ite" && iteDepth(a) <= 3 && EqOff(a.args[1], b) == False && EqOff(a.args[2], b) == False {
+			return False
+		}
+		if b.op == "ite" && iteDepth(b) <= 3 && EqOff(a, b.args[1]) == False && EqOff(a, b.args[2]) == False {
+			return False
+		}
 		if regionMask(a)&regionMask(b) == 0 {
 			return False
 		}
@@ -566,11 +581,34 @@ func effectiveMem(m *Mem, r *Term) *Mem {
 				continue
 			}
 		}
-		if nr != nil && EqOff(nr, r) == False {
+		if nr != nil && regionCannotBe(nr, r) {
 			m = m.prev
 			continue
 		}
 		break
 	}
 	return m
+}
+
+func iteDepth(t *Term) int {
+	if t.op != "ite" {
+		return 0
+	}
+	a, b := iteDepth(t.args[1]), iteDepth(t.args[2])
+	if b > a {
+		a = b
+	}
+	return a + 1
+}
+
+// regionCannotBe: a node writing region nr cannot concern reads of region r. The nil region
+// (0) holds no cells, so a write "to" it is empty.
+func regionCannotBe(nr, r *Term) bool {
+	if nr.IsConst() && nr.val.Sign() == 0 {
+		return true
+	}
+	if nr.op == "ite" && iteDepth(nr) <= 3 {
+		return regionCannotBe(nr.args[1], r) && regionCannotBe(nr.args[2], r)
+	}
+	return EqOff(nr, r) == False
 }
